@@ -293,6 +293,39 @@ def run(ctx):
     def is_record(c):
         return c.target in record_fns
 
+    # ---------------- V1c: the timestamp a header is stamped with is read when the header is written ------------------
+    # role: the u64 that is put into the buffer that also received the sender's own type byte. A receiver refuses a header more than 30 s old, and a
+    # header is only written with the first payload byte of its direction: a stamp taken earlier (when the session object was made) is stale by
+    # however long the application - or the target - waited before its first byte, and the peer drops the flow.
+    n_stamp = 0
+    for b in prog.prod_bodies():
+        if "shadowsocks" not in b.defp:
+            continue
+        type_puts = []
+        for (blk, c, t) in b.calls():
+            if c.name == "BufMut::put_u8" and len(t["args"]) > 1 and op_place(t["args"][1]) is not None:
+                if any(is_own(cc) for (_, cc, _) in b.slice_back([op_place(t["args"][1])[0]])[1]):
+                    type_puts.append((blk, t))
+        for (tb_, tt_) in type_puts:
+            rq = op_place(tt_["args"][0])
+            rroots = b.slice_back([rq[0]], stop_call=lambda c_: True)[0] if rq else set()
+            for (blk, c, t) in b.calls():
+                if c.name != "BufMut::put_u64" or len(t["args"]) < 2 or not b.dominates(tb_, blk):
+                    continue
+                q0, q1 = op_place(t["args"][0]), op_place(t["args"][1])
+                if q0 is None or q1 is None or not (b.slice_back([q0[0]], stop_call=lambda c_: True)[0] & rroots):
+                    continue
+                # only the first u64 behind the type byte is the timestamp
+                n_stamp += 1
+                okc, why = clock_read_at_check_time(prog, b, q1[0])
+                ctx.ob("V1c", b.defp, "timestamp-written-is-read-at-write-time", loc(t["sp"]), okc,
+                       "the timestamp put behind the type byte is a clock reading of the activation that writes the header" if okc else
+                       "the timestamp written behind the type byte is not read from the clock when the header is written (" + why + "): the header of a direction is written with "
+                       "that direction's first payload byte, so a stamp taken when the session object was created is as old as the pause before that byte - past 30 s the peer "
+                       "refuses it and the flow delivers nothing")
+                break
+    ctx.floor("V1c", "timestamps written behind a type byte (2022 header / datagram encoders)", 2, n_stamp)
+
     # ---------------- V1b / V2: every 2022 header decoder ---------------------------------------
     def is_vt(c):
         return c.target in vt_paths
